@@ -159,8 +159,12 @@ func fieldTag(t *rapid.T, tag uint64, ft TypeSpec, optional bool) string {
 	} else if rapid.IntRange(0, 5).Draw(t, "explicit") == 0 {
 		parts = append(parts, "explicit")
 	}
-	if ft.Kind == "struct" && rapid.IntRange(0, 3).Draw(t, "set") == 0 {
+	if (ft.Kind == "struct" || ft.Kind == "slice") && rapid.IntRange(0, 3).Draw(t, "set") == 0 {
 		parts = append(parts, "set")
+	}
+	if (ft.Prim == "utf8" || ft.Prim == "ia5" || ft.Prim == "graphic") && rapid.IntRange(0, 3).Draw(t, "strKind") == 0 {
+		// a string kind beside a typed string member, also one that names another type than the member's
+		parts = append(parts, rapid.SampledFrom([]string{"utf8", "ia5", "graphic"}).Draw(t, "kind"))
 	}
 	return strings.Join(parts, ",")
 }
